@@ -18,12 +18,12 @@ CHECKS = {
    "property-based testing: bounded exhaustive enumeration + rapid, oracle = coverage/validity predicates and idempotence",
    "DESIGN.md 3/C17"),
  "C16": ("exploration",
-   "Generated-input search against transliterations of the SAM 5.3 and CSI reference C code: rapid records (positions on tile/bin edges, CIGARs over all ten ops up to 2^28-1) for End/Len/Lengths/IsValid/Bin; BinFor on the 16 KiB tile grid (thorough: all 2^15x2^15/2 tile pairs, exhaustive at tile granularity; quick: near pairs, power-of-two edges, sampled far pairs); OverlappingBinsFor as sets on narrow, edge and wide intervals; pairwise overlap => bin membership; CSI reg2bin/reg2bins exhaustively over all intervals and overlapping pairs of every geometry with range <=64 (thorough 128) and sampled for every geometry the index reader accepts (depth <= 10, range up to 2^62).",
+   "Generated-input search against transliterations of the SAM 5.3 and CSI reference C code: rapid records (positions on tile/bin edges, CIGARs over all ten ops up to 2^28-1) for End/Len/Lengths/IsValid/Bin; BinFor on the 16 KiB tile grid (thorough: all 2^15x2^15/2 tile pairs, exhaustive at tile granularity; quick: near pairs, power-of-two edges, sampled far pairs); OverlappingBinsFor as sets on narrow, edge and wide intervals (an earlier list must not change when a later one is enumerated); pairwise overlap => bin membership; CSI reg2bin/reg2bins exhaustively over all intervals and overlapping pairs of every geometry with range <=64 (thorough 128) and sampled for every geometry the index reader accepts (depth <= 10, range up to 2^62).",
    "Trusted: the harness' transliterations of the specification code. Bin is not judged where the specification is silent (see evidence assumptions). Large CSI geometries and wide BAI bin lists are sampled.",
    "property-based testing: exhaustive grid enumeration + rapid, oracle = independent spec transliteration and overlap=>membership relation",
    "DESIGN.md 3/C16"),
  "C19": ("exploration",
-   "Generated-input search: rapid FASTA files (records, widths, LF/CRLF, final newline, blank lines, descriptions) whose true layout is known to the generator; oracle = generator ground truth for Length/Start/line layout, WriteTo/ReadFrom round trip, and exact sub-sequence equality for boundary-biased (start,end) ranges read through File with several buffer sizes, then io.EOF.",
+   "Generated-input search: rapid FASTA files (records, widths, LF/CRLF, final newline, blank lines, descriptions) whose true layout is known to the generator; oracle = generator ground truth for Length/Start/line layout, WriteTo/ReadFrom round trip, and exact sub-sequence equality for boundary-biased (start,end) ranges read through File (two live handles, chunked and eager-EOF sources) with several buffer sizes, then io.EOF.",
    "Ground truth is the generator's own bookkeeping; empty sequences and names with a double quote are outside the domain.",
    "property-based testing (rapid), oracle = generator ground truth + round trip",
    "DESIGN.md 3/C19"),
@@ -58,7 +58,7 @@ CHECKS = {
    "stateful model-based property testing (rapid): reference model + differential against the uncached reader",
    "DESIGN.md 3/C03"),
  "C09": ("fault_enumeration",
-   "Fault enumeration over generated workloads: a fault-free run counts the underlying Write (writer) or Read/Seek (reader) calls; then every call index is failed in 4 shapes {error, error after partial data} x {once, sticky}. Writer oracle: every API call returns (4 s watchdog + deadlock signature), Close reports an error whenever the sink failed, errors are monotone (no nil after a reported failure), no EOF marker after a failed Close, no bgzf goroutine remains (a time budget alone never decides: deadlock signature from two goroutine dumps, or ten times the budget). Reader oracle: every call returns, every byte returned is the right byte for its position (also after a failed and retried Seek), io.EOF only at the true end, no goroutine remains; rd 1..4, with and without caches.",
+   "Fault enumeration over generated workloads: a fault-free run counts the underlying Write (writer) or Read/Seek (reader) calls; then every call index is failed in 4 shapes {error, error after partial data} x {once, sticky}. Writer oracle: every API call returns (4 s watchdog + deadlock signature), Close reports an error whenever the sink failed, errors are monotone (no nil after a reported failure), no EOF marker after a failed Close, no bgzf goroutine remains (a time budget alone never decides: deadlock signature from two goroutine dumps, or ten times the budget). Reader oracle: every call returns, every byte returned is the right byte for its position (also after a failed and retried Seek), io.EOF only at the true end, no goroutine remains; rd 1..4, with and without caches, on sources that can and cannot seek.",
    "Fault positions are enumerated exhaustively per workload; the workloads and the goroutine schedules (sink delays, rd) are sampled. Faults are honest errors, not silent short writes.",
    "fault injection through harness-owned io.Writer/io.ReadSeeker shims, exhaustive over call indices of rapid-generated workloads; oracle = return/leak watchdog + reference data",
    "DESIGN.md 3/C09"),
@@ -73,12 +73,12 @@ CHECKS = {
    "property-based testing (rapid): round trip + differential against an independent formatter + SAM/BAM metamorphic agreement",
    "DESIGN.md 3/C06"),
  "C07": ("exploration",
-   "Generated-input search: (a) rapid API-built headers are serialised to text and binary, parsed back and re-serialised (identical bytes, equal getter values, binary layout equal to an independent SAM 4.2 encoder); (b) stateful histories of up to 25 add/remove/rename/clone/merge/UnmarshalText/re-parse operations over up to 4 live headers with colliding names; after every step every live header must have ids equal to indices, unique names, still round-trip, and merge links must point at references the merged header owns with the same name and length; panics in documented calls are violations.",
+   "Generated-input search: (a) rapid API-built headers are serialised to text and binary, parsed back and re-serialised (identical bytes, equal getter values, binary layout equal to an independent SAM 4.2 encoder); (b) stateful histories of up to 25 add/remove/rename/clone/merge/UnmarshalText/re-parse operations (restated @SQ lines, verbatim extra tags, removal of foreign items included) over up to 4 live headers with colliding names; after every step every live header must have ids equal to indices, unique names, still round-trip, and merge links must point at references the merged header owns with the same name and length; panics in documented calls are violations.",
    "Success or failure of an individual edit is not judged, only the reachable state. URIs are limited to the schemes the parser preserves.",
    "property-based testing (rapid): round trip + stateful histories with an invariant checked after every step",
    "DESIGN.md 3/C07"),
  "C04": ("exploration",
-   "Generated-input search: rapid coordinate-sorted record sets (positions and lengths on tile and bin-level edges up to the scheme limit, several references, placed-unmapped and unplaced records) are added to BAI, CSI (minShift 4..24, depth 1..6, ranges up to 2^40) and tabix indexes with synthetic monotone chunk layouts (also starting at virtual offset zero; one index in three is queried and written while half built; bins with more than 512 chunks), and up to 48 boundary-biased queries per case are compared with a brute-force overlap filter (every overlapping record lies inside a returned chunk; error or empty answer implies no overlap; Add never fails or panics) as built, after write/read and after MergeChunks; a second sub-check writes a real BAM, indexes it with the reader's LastChunk values and iterates the returned chunks with bam.Iterator.",
+   "Generated-input search: rapid coordinate-sorted record sets (positions and lengths on tile and bin-level edges up to the scheme limit, several references, placed-unmapped and unplaced records) are added to BAI, CSI (minShift 4..24, depth 1..6, ranges up to 2^40) and tabix indexes with synthetic monotone chunk layouts (also starting at virtual offset zero; one index in three is queried and written while half built; bins with more than 512 chunks), and up to 48 boundary-biased queries per case are compared with a brute-force overlap filter (every overlapping record lies inside a returned chunk; error or empty answer implies no overlap; Add never fails or panics) as built, after write/read and after MergeChunks, kept answers compared again after later queries; a second sub-check writes a real BAM, indexes it with the reader's LastChunk values and iterates the returned chunks with bam.Iterator.",
    "Completeness only (no minimality). Record sets and queries are sampled, biased to the boundaries the bin/tile arithmetic depends on.",
    "property-based testing (rapid): brute-force reference oracle over generated record sets and queries",
    "DESIGN.md 3/C04"),
@@ -98,12 +98,12 @@ CHECKS = {
    "fault enumeration (all cut points, all positions x several values) over rapid-generated streams; oracle = original data/records",
    "DESIGN.md 3/C10"),
  "C18": ("exploration",
-   "Generated-input search: 1..4 generated BAM inputs (some empty) with equal, disjoint and overlapping reference lists whose header order differs from name order, in each declared order (unknown with nil or custom less, unsorted, queryname, coordinate), each input sorted in that order, records tagged with (input, ordinal) and mates on other references, optionally one input truncated inside its last block; oracle = multiset equality with the inputs, sortedness under the declared order (coordinate = merged header order, unplaced last), per-input order preserved, concatenation for unsorted, every Ref/MateRef pointer-identical to a reference of Merger.Header() with the source name, io.EOF only after clean ends and an error reported for the damaged input; watchdog and a 64 MiB stack limit turn hangs and unbounded recursion into attributable failures.",
+   "Generated-input search: 1..4 generated BAM inputs (some empty) with equal, disjoint and overlapping reference lists whose header order differs from name order, in each declared order (unknown with nil or custom less, unsorted, queryname, coordinate), each input sorted in that order, records tagged with (input, ordinal) and mates on other references, optionally one input cut inside the BGZF member of record n or ended 1..37 bytes into record n of a whole container; oracle = multiset equality with the inputs, sortedness under the declared order (coordinate = merged header order, unplaced last), per-input order preserved, concatenation for unsorted, every Ref/MateRef pointer-identical to a reference of Merger.Header() with the source name, io.EOF only after clean ends and an error reported for the damaged input; watchdog and a 64 MiB stack limit turn hangs and unbounded recursion into attributable failures.",
    "The merged header's reference order is modelled from MergeHeaders' documented behaviour.",
    "property-based testing (rapid): reference model (multiset + order predicates) over generated inputs with fault injection by truncation",
    "DESIGN.md 3/C18"),
  "C11": ("exploration",
-   "Generated-input search: rapid structure-aware mutations (flips, grammar-character sets, insert/delete/duplicate/splice, truncation, 16/32-bit length-field overwrites with hostile values) of valid encodings for 17 decoder entry points (BGZF rd 1/2, BAM via re-wrapped inflated payload and raw stream with all Omit modes, SAM reader, UnmarshalSAM, ParseAux, ParseCigar, header text/binary, BAI/CSI/tabix, FAI text and FASTA, CRAM built from a generated container/block description with correct CRCs, ITF-8/LTF-8); every call runs in an isolated worker process (4 GiB address space, 64 MiB stack; a hang is 60 s of processor time without memory growth, 20 s without any progress, or 15 min) and every value returned without error is fed to the library's accessors, formatters, bam.Writer and bam.Index. Thorough tier adds native coverage-guided go fuzzing of the same targets.",
+   "Generated-input search: rapid structure-aware mutations (flips, grammar-character sets, insert/delete/duplicate/splice, truncation, 16/32-bit length-field overwrites with hostile values) of valid encodings for 17 decoder entry points (BGZF rd 1/2, BAM via re-wrapped inflated payload and raw stream with all Omit modes, SAM reader, UnmarshalSAM, ParseAux, ParseCigar, header text/binary, BAI/CSI/tabix, FAI text and FASTA, CRAM built from a generated container/block description with correct CRCs, ITF-8/LTF-8); every call runs in an isolated worker process (4 GiB address space, 64 MiB stack; a hang is 60 s of processor time without memory growth, 20 s without any progress, or 15 min) and every value returned without error (for BAM streams: again after the whole stream has been read) is fed to the library's accessors, formatters, bam.Writer and bam.Index. Thorough tier adds native coverage-guided go fuzzing of the same targets.",
    "A worker that dies because one make() sized by a length field exceeds the limit is counted as oversize_not_judged; heap growth to the limit, stack overflow, panics and calls that do not return are violations.",
    "property-based fuzzing: rapid structure-aware mutation in the quick tier, native go test -fuzz in the thorough tier; oracle = totality (returns, no panic, bounded time) in an isolated process",
    "DESIGN.md 3/C11"),
